@@ -39,6 +39,11 @@ inputs:
     extractions:
       - type: delFields
         keys: [facility, pid]
+      - type: drop
+        match:
+          source: earlydrop
+        percentage: 100
+        metricLabel: earlyDrop
 orchestration:
   type: byKeySet
   keys: [app]
@@ -215,17 +220,18 @@ func (u *upstream) close() {
 // ---- the script of one case ----
 
 type agentScript struct {
-	mode     string   // Forward / PackedForward / CompressedPackedForward
-	maxDurMs int      // upstream maxDuration
-	quota    string   // maxBufSize
-	gens     int      // generations (stop + restart); the last one ends with a healthy upstream
-	conns    int      // client connections per generation
-	recs     int      // records per connection per generation
-	apps     int      // distinct key sets
-	upScript []string // behaviour per upstream connection attempt
-	stopMs   []int    // per generation: pause between the last record sent and the stop request
-	seed     int64
-	hostile  bool     // an additional client per generation sends hostile byte streams and disconnects abruptly
+	mode       string   // Forward / PackedForward / CompressedPackedForward
+	maxDurMs   int      // upstream maxDuration
+	quota      string   // maxBufSize
+	gens       int      // generations (stop + restart); the last one ends with a healthy upstream
+	conns      int      // client connections per generation
+	recs       int      // records per connection per generation
+	apps       int      // distinct key sets
+	upScript   []string // behaviour per upstream connection attempt
+	stopMs     []int    // per generation: pause between the last record sent and the stop request
+	seed       int64
+	hostile    bool // an additional client per generation sends hostile byte streams and disconnects abruptly
+	earlyDrops bool // some records are dropped by an input-stage extraction (C19: known finding F-12)
 }
 
 func (s agentScript) op() Op {
@@ -238,7 +244,7 @@ func (s agentScript) op() Op {
 		up = "-"
 	}
 	return Op{Name: "agent script", Strs: []string{s.mode, s.quota, up, strings.Join(stop, ",")},
-		Ints: []int64{int64(s.maxDurMs), int64(s.gens), int64(s.conns), int64(s.recs), int64(s.apps), s.seed, b2i(s.hostile)}}
+		Ints: []int64{int64(s.maxDurMs), int64(s.gens), int64(s.conns), int64(s.recs), int64(s.apps), s.seed, b2i(s.hostile), b2i(s.earlyDrops)}}
 }
 
 func b2i(b bool) int64 {
@@ -250,7 +256,7 @@ func b2i(b bool) int64 {
 
 func agentScriptOf(o Op) agentScript {
 	s := agentScript{mode: o.Strs[0], quota: o.Strs[1], maxDurMs: int(o.Ints[0]), gens: int(o.Ints[1]), conns: int(o.Ints[2]),
-		recs: int(o.Ints[3]), apps: int(o.Ints[4]), seed: o.Ints[5], hostile: len(o.Ints) > 6 && o.Ints[6] != 0}
+		recs: int(o.Ints[3]), apps: int(o.Ints[4]), seed: o.Ints[5], hostile: len(o.Ints) > 6 && o.Ints[6] != 0, earlyDrops: len(o.Ints) > 7 && o.Ints[7] != 0}
 	if o.Strs[2] != "-" {
 		s.upScript = strings.Split(o.Strs[2], ",")
 	}
@@ -263,13 +269,14 @@ func agentScriptOf(o Op) agentScript {
 
 // observation of one run (canonical text, one token per fact)
 type agentObs struct {
-	sent      []string          // stamps sent and not filtered, in send order per connection: "g<gen>c<conn>a<app>-<seq>"
-	filtered  int               // records sent that the drop filter removes
-	malformed int               // lines sent that are not records
-	chunks    []*upChunk        // everything the upstream received, in order
-	stopMs    []int64           // duration of each graceful stop
-	filesLeft []int             // chunk files in the queue directories after each stop
-	metrics   map[string]int64  // summed over generations
+	sent      []string         // stamps sent and not filtered, in send order per connection: "g<gen>c<conn>a<app>-<seq>"
+	filtered  int              // records sent that the drop filter removes
+	early     int              // records sent that an input-stage extraction drops
+	malformed int              // lines sent that are not records
+	chunks    []*upChunk       // everything the upstream received, in order
+	stopMs    []int64          // duration of each graceful stop
+	filesLeft []int            // chunk files in the queue directories after each stop
+	metrics   map[string]int64 // summed over generations
 	panics    []string
 }
 
@@ -320,7 +327,7 @@ func runAgent(sc agentScript) (obs agentObs) {
 				obs.panics = append(obs.panics, "config rejected: "+err.Error())
 				return
 			}
-			linesBefore := int64(len(obs.sent) + obs.filtered + obs.malformed)
+			linesBefore := int64(len(obs.sent) + obs.filtered + obs.malformed + obs.early)
 			orc := ld.StartOrchestrator(logger.WithField("verif", "agent"))
 			addrs, shutdownInputs := ld.LaunchInputs(orc)
 			var wg sync.WaitGroup
@@ -343,6 +350,10 @@ func runAgent(sc agentScript) (obs agentObs) {
 						switch crng.Intn(12) {
 						case 0:
 							source = "filtered"
+						case 2:
+							if sc.earlyDrops {
+								source = "earlydrop"
+							}
 						case 1:
 							// not a record: no PRI
 							fmt.Fprintf(w, "<14>1 bad-record-with-too-few-fields-%s\n", stamp)
@@ -356,6 +367,8 @@ func runAgent(sc agentScript) (obs agentObs) {
 						mu.Lock()
 						if source == "filtered" {
 							obs.filtered++
+						} else if source == "earlydrop" {
+							obs.early++
 						} else {
 							obs.sent = append(obs.sent, stamp+"|"+body)
 						}
@@ -376,7 +389,7 @@ func runAgent(sc agentScript) (obs agentObs) {
 			_ = hostileLines
 			// the property speaks of records the agent has read: wait until the input counters cover every line sent
 			mu.Lock()
-			want := int64(len(obs.sent)+obs.filtered+obs.malformed) - linesBefore
+			want := int64(len(obs.sent)+obs.filtered+obs.malformed+obs.early) - linesBefore
 			mu.Unlock()
 			for deadline := time.Now().Add(3 * time.Second); time.Now().Before(deadline); {
 				mm := dumpGatherer(ld.GetMetricGatherer())
@@ -695,7 +708,7 @@ func oracleC18(obs agentObs) string {
 // C19: the counters balance with what the harness did and saw
 func oracleC19(obs agentObs) string {
 	m := obs.metrics
-	lines := int64(len(obs.sent) + obs.filtered + obs.malformed)
+	lines := int64(len(obs.sent) + obs.filtered + obs.malformed + obs.early)
 	inPass, inDrop := m["input_passed_records_total"], m["input_dropped_records_total"]
 	if inPass+inDrop != lines {
 		return fmt.Sprintf("[key=metric-input] input passed %d + dropped %d != %d lines sent", inPass, inDrop, lines)
@@ -704,6 +717,9 @@ func oracleC19(obs agentObs) string {
 		return fmt.Sprintf("[key=metric-input-drop] input dropped %d, malformed lines sent %d", inDrop, obs.malformed)
 	}
 	pPass, pDrop := m["process_passed_records_total"], m["process_dropped_records_total"]
+	if obs.early > 0 && pPass+pDrop+int64(obs.early) == inPass {
+		return fmt.Sprintf("[key=metric-extraction-drop] %d record(s) dropped by an input-stage extraction are counted as passed by the input and by no pipeline counter: pipeline passed %d + dropped %d != input passed %d", obs.early, pPass, pDrop, inPass)
+	}
 	if pPass+pDrop != inPass {
 		return fmt.Sprintf("[key=metric-process] pipeline passed %d + dropped %d != input passed %d", pPass, pDrop, inPass)
 	}
@@ -776,6 +792,9 @@ func (a *agentComp) Generate(rng *rand.Rand, n int, emit func(Case)) {
 		}
 		if len(sc.stopMs) == 0 {
 			sc.stopMs = []int{0}
+		}
+		if a.prop == "c19" && i%4 == 0 {
+			sc.earlyDrops = true
 		}
 		if a.prop == "c07" {
 			sc.hostile = true
